@@ -8,4 +8,6 @@ for P in "$@"; do
   cat /verif/seeded/$ID/check-$P.log
 done
 git -C /repo checkout -- .
+# the evidence written while the seeded change was applied is not evidence about /repo: restore the committed files
+for P in "$@"; do git -C /verif checkout -- evidence/$P.json 2>/dev/null; done
 (cd /verif && python3 -c "import sys; sys.path.insert(0,'lib'); from common import prepare; prepare()" >/dev/null 2>&1)
